@@ -1,4 +1,6 @@
 import RsslVerif.Model.Lexer
+import RsslVerif.Model.LitFormat
+import RsslVerif.Model.SourceMap
 import RsslVerif.Driver.Util
 /-! Line-protocol front end of the C10 model (lexer + exact decimal→binary reference). -/
 namespace RsslVerif.Driver.C10
@@ -42,6 +44,30 @@ def parseFlags (s : String) : Option (Bool × Bool) :=
     pure (t, i)
   | _ => none
 
+def parseHexNat (s : String) : Option Nat :=
+  if s.isEmpty then none
+  else s.toList.foldl (fun acc c => do
+    let a ← acc
+    let d ← hexDigit? c
+    pure (a * 16 + d)) (some 0)
+
+/-- `name_hex:contents_hex` joined by `,`: the files in the order they were added to the manager -/
+def parseFiles (s : String) : Option Model.SourceMap.SourceManager :=
+  sequenceOpt ((s.splitOn ",").map fun p =>
+    match p.splitOn ":" with
+    | [n, c] => do
+      let nb ← unhex? n
+      let cb ← unhex? c
+      pure (⟨String.fromUTF8! (ByteArray.mk nb.toArray), cb⟩ : Model.SourceMap.SourceFile)
+    | _ => none)
+
+/-- `get_file_offset_from_source_location` and `get_file_location` on one raw location -/
+def showLoc (sm : Model.SourceMap.SourceManager) (raw : Nat) : String :=
+  match Model.SourceMap.getFileOffset sm raw, Model.SourceMap.getFileLocation sm raw with
+  | some (i, off), .known _ l c => s!"{i}:{off}:{l}:{c}"
+  | some (i, off), .unknown => s!"{i}:{off}:0:0"
+  | none, _ => "none"
+
 def handle (op : String) (args : List String) : String :=
   match op, args with
   | "C10.lex", [flags, hx] =>
@@ -54,6 +80,17 @@ def handle (op : String) (args : List String) : String :=
       | .error (.lexer reason off) => toks ++ " !err " ++ reason.name ++ " " ++ toString off
       | .error (.panic site) => toks ++ " !panic " ++ site
       | .error .outOfFuel => toks ++ " !model-out-of-fuel"
+    | _, _ => "bad-request"
+  | "C10.fmt", [tgt, kind, bitsHex, disp] =>
+    match Model.LitFormat.Kind.ofName kind, parseHexNat bitsHex with
+    | some k, some bits =>
+      match Model.LitFormat.fmtLiteral k (tgt == "msl") bits disp.toUTF8.toList with
+      | .ok t => String.ofList (t.map fun b => Char.ofNat b.toNat)
+      | .error e => "!" ++ e
+    | _, _ => "bad-request"
+  | "C10.loc", [files, raws] =>
+    match parseFiles files, sequenceOpt ((if raws == "" then [] else raws.splitOn ",").map String.toNat?) with
+    | some sm, some locs => ",".intercalate (locs.map (showLoc sm))
     | _, _ => "bad-request"
   | _, _ => "unsupported-op"
 
